@@ -393,7 +393,7 @@ def tagParser (T : LexTables) (cfg : SetCfg) : Nat → Tok → Tok → PS → DS
         | none => do
           let (e, args) ← parseExpression cfg fuel args
           let (ifExists, args) := match args.matchIdentVal b!"if_exists" with | some a => (true, a) | none => (false, args)
-          pure (IncludeSrc.lazy e ifExists, args, ds) : PM (IncludeSrc × PS × DS))
+          pure (IncludeSrc.lazy e ifExists ds.self, args, ds) : PM (IncludeSrc × PS × DS))
       match src with
       | .empty =>
         -- `return &tagIncludeEmptyNode{}` happens before the remaining arguments are looked at
